@@ -2,10 +2,10 @@ package checks
 
 import (
 	"fmt"
-	"sort"
 	"go/ast"
 	"go/token"
 	"go/types"
+	"sort"
 	"strings"
 
 	"csverify/bounds"
